@@ -5,6 +5,10 @@ set_option linter.unusedSimpArgs false
 namespace Midi
 open Midi.Spec
 
+/-- a Control Change on channel c is a valid message -/
+theorem cc_valid (c n v : Nat) (hc : c < 16) (hn : n < 128) (hv : v < 128) : (⟨176 + c, n, v⟩ : Bytes).Valid :=
+  ⟨by show 128 ≤ 176 + c; omega, by show 176 + c < 256; omega, hn, hv⟩
+
 theorem raw_channel (b : Bytes) (hv : b.Valid) : channel rawImpl b = .ok (specChannel b.status) :=
   Props.C02.channel_eq_spec rawImpl b hv
 theorem raw_structured (b : Bytes) (hv : b.Valid) : toStructured rawImpl b = .ok (specStructured b) :=
@@ -66,9 +70,12 @@ def chanOf : Option (Nat × Nat) → CCChan
   | none => {}
   | some (n, v) => { msbCn := some n, valueMsb := some v }
 
+/-- the scanner state is described by an abstraction `f` (per channel: the pending MSB Control Change) -/
+def CCAbsRel (s : CCScanner) (f : Nat → Option (Nat × Nat)) : Prop :=
+  ∀ c (h : c < 16), s[c] = chanOf (f c) ∧ ∀ n v, f c = some (n, v) → n < 32 ∧ v < 128
+
 /-- the scanner state is exactly the history abstraction "last MSB Control Change per channel" -/
-def CCRel (s : CCScanner) (past : List Op) : Prop :=
-  ∀ c (h : c < 16), s[c] = chanOf (lastMsb past c) ∧ ∀ n v, lastMsb past c = some (n, v) → n < 32 ∧ v < 128
+def CCRel (s : CCScanner) (past : List Op) : Prop := CCAbsRel s (lastMsb past)
 
 theorem lastMsb_snoc (past : List Op) (op : Op) (c : Nat) :
     lastMsb (past ++ [op]) c = msbStep c (lastMsb past c) op := by
@@ -154,40 +161,40 @@ theorem msbStep_other (c : Nat) (o : Option (Nat × Nat)) (b : Bytes) (h : b.sta
     msbStep c o (.feed b) = o := by
   simp [msbStep, ccOn, h]
 
-/-- one feed: the scanner reports exactly the justified message and its state stays the history abstraction -/
-theorem cc_feed_step (s : CCScanner) (past : List Op) (hr : CCRel s past) (b : Bytes) (hv : b.Valid) :
-    ∃ s', s.feed rawImpl b = .ok (s', justified14 past b) ∧ CCRel s' (past ++ [.feed b]) := by
+/-- one feed from ANY state described by an abstraction `f`: the output is determined by `f` at the message's
+    channel, and only that channel's abstraction moves -/
+theorem cc_feed_abs (s : CCScanner) (f : Nat → Option (Nat × Nat)) (hr : CCAbsRel s f) (b : Bytes) (hv : b.Valid) :
+    ∃ s', s.feed rawImpl b = .ok (s', just14 (f (b.status - 176)) b) ∧
+      CCAbsRel s' (fun c => msbStep c (f c) (.feed b)) := by
   rw [ccScanner_feed s b hv]
   by_cases hcc : 176 ≤ b.status ∧ b.status < 192
-  · -- a Control Change on channel b.status - 176
-    obtain ⟨hlo, hhi⟩ := hcc
+  · obtain ⟨hlo, hhi⟩ := hcc
     have hlt : b.status < 240 := by omega
     have h16 : b.status % 16 < 16 := Nat.mod_lt _ (by decide)
     have hch : b.status % 16 = b.status - 176 := by omega
     obtain ⟨hs, hb⟩ := hr _ h16
-    have step := ccChan_step (lastMsb past (b.status % 16)) hb b hv hlo hhi
+    have step := ccChan_step (f (b.status % 16)) hb b hv hlo hhi
     rw [← hch] at step
     simp only [hlt, if_true]
     rw [hs, step.1]
     simp only [bind, Except.bind]
-    rw [justified14_eq, ← hch]
+    rw [← hch]
     refine ⟨_, rfl, ?_⟩
-    · intro c hc
-      rw [lastMsb_snoc]
-      by_cases hc' : c = b.status % 16
-      · subst hc'
-        rw [Vector.getElem_set_self]
-        exact ⟨rfl, step.2⟩
-      · rw [Vector.getElem_set_ne _ _ (by omega), msbStep_other c _ b (by omega)]
-        exact hr c hc
-  · -- anything else: nothing reported, nothing changes
-    have hj : justified14 past b = none := by
-      unfold justified14
+    intro c hc
+    by_cases hc' : c = b.status % 16
+    · subst hc'
+      rw [Vector.getElem_set_self]
+      exact ⟨rfl, step.2⟩
+    · rw [Vector.getElem_set_ne _ _ (by omega)]
+      simp only [msbStep_other c _ b (by omega)]
+      exact hr c hc
+  · have hj : just14 (f (b.status - 176)) b = none := by
+      unfold just14
       have : ¬ (176 ≤ b.status ∧ b.status < 192 ∧ 32 ≤ b.d1 ∧ b.d1 < 64) := by omega
       simp [this]
-    have hrel : CCRel s (past ++ [.feed b]) := by
+    have hrel : CCAbsRel s (fun c => msbStep c (f c) (.feed b)) := by
       intro c hc
-      rw [lastMsb_snoc, msbStep_other c _ b (by omega)]
+      simp only [msbStep_other c _ b (by omega)]
       exact hr c hc
     rw [hj]
     by_cases hlt : b.status < 240
@@ -202,6 +209,15 @@ theorem cc_feed_step (s : CCScanner) (past : List Op) (hr : CCRel s past) (b : B
       exact ⟨s, rfl, hrel⟩
     · simp only [hlt, if_false]
       exact ⟨s, rfl, hrel⟩
+
+/-- one feed: the scanner reports exactly the justified message and its state stays the history abstraction -/
+theorem cc_feed_step (s : CCScanner) (past : List Op) (hr : CCRel s past) (b : Bytes) (hv : b.Valid) :
+    ∃ s', s.feed rawImpl b = .ok (s', justified14 past b) ∧ CCRel s' (past ++ [.feed b]) := by
+  obtain ⟨s', h1, h2⟩ := cc_feed_abs s (lastMsb past) hr b hv
+  refine ⟨s', h1, ?_⟩
+  intro c hc
+  rw [lastMsb_snoc]
+  exact h2 c hc
 
 theorem cc_step (s : CCScanner) (past : List Op) (hr : CCRel s past) (op : Op) (hv : op.Valid) :
     ∃ s', ccStep s op = .ok (s', expect14 past op) ∧
